@@ -74,7 +74,17 @@ class Bench:
         mod = sys.modules.get("pycomm3.cip_driver")
         rng = self.rng
         if mod is not None and hasattr(mod, "urandom"):
-            mod.urandom = lambda n: bytes(rng.randrange(256) for _ in range(n))
+            def urandom(n):
+                # what os.urandom may return, the rare values included: all ones, all zeros, values next to the top of the range
+                r = rng.random()
+                if r < 0.10:
+                    return b"\xff" * n
+                if r < 0.16:
+                    return b"\x00" * n
+                if r < 0.24:
+                    return (rng.choice([0xFFFE, 0xFFFA, 0xFFF0, 0xFF00, 0x8000, 1])).to_bytes(2, "little") * (n // 2) + b"\xff" * (n % 2)
+                return bytes(rng.randrange(256) for _ in range(n))
+            mod.urandom = urandom
 
     def set_target(self, target, host=None, port=None):
         self.target = target
